@@ -78,6 +78,21 @@ UNIT = {
         {"file": F_HS, "kind": "fn", "name": "parse_tls_handshake_next_protocol", "contract": "    ensures nextproto_post(i@, r),",
          "splices": hint([{"after": r"let \(i, selected_protocol\) = length_data\(be_u8\)\(i\)\?;", "text": "    let ghost i1 = i@;\n    proof { let a = i0[0] as int; assert(selected_protocol@ =~= i0.subrange(1, 1 + a)); assert(i1 =~= i0.subrange(1 + a, i0.len() as int)); }"},
                           {"after": r"let \(i, padding\) = length_data\(be_u8\)\(i\)\?;", "text": "    proof { let a = i0[0] as int; let b = i0[1 + a] as int; assert(i1[0] == i0[1 + a]); assert(padding@ =~= i0.subrange(2 + a, 2 + a + b)); assert(i@ =~= i0.subrange(2 + a + b, i0.len() as int)); }"}])},
+        {"file": F_HS, "kind": "fn", "name": "parse_tls_handshake_msg_certificatestatus",
+         "subst": [(r"fn parse_tls_handshake_msg_certificatestatus\(i: &\[u8\]\) -> IResult<&\[u8\], TlsMessageHandshake>", "fn parse_tls_handshake_msg_certificatestatus<'a>(i: &'a [u8]) -> IResult<&'a [u8], TlsMessageHandshake<'a>>"),
+                   # R10: constructor passed as a function value, eta-expanded with its (trivial) contract
+                   (r"TlsMessageHandshake::CertificateStatus,", "|x: TlsCertificateStatusContents<'a>| -> (y: TlsMessageHandshake<'a>) ensures y == TlsMessageHandshake::CertificateStatus(x) { TlsMessageHandshake::CertificateStatus(x) },")],
+         "contract": """    ensures match r {
+            Ok((rem, TlsMessageHandshake::CertificateStatus(c))) => certstatus_post(i@, Ok::<(&[u8], TlsCertificateStatusContents), Err<Error<&[u8]>>>((rem, c))),
+            Ok(_) => false,
+            Err(e) => certstatus_post(i@, Err::<(&[u8], TlsCertificateStatusContents), Err<Error<&[u8]>>>(e)) },"""},
+        {"file": F_HS, "kind": "fn", "name": "parse_tls_handshake_msg_next_protocol",
+         "subst": [(r"fn parse_tls_handshake_msg_next_protocol\(i: &\[u8\]\) -> IResult<&\[u8\], TlsMessageHandshake>", "fn parse_tls_handshake_msg_next_protocol<'a>(i: &'a [u8]) -> IResult<&'a [u8], TlsMessageHandshake<'a>>"),
+                   (r"TlsMessageHandshake::NextProtocol,", "|x: TlsNextProtocolContent<'a>| -> (y: TlsMessageHandshake<'a>) ensures y == TlsMessageHandshake::NextProtocol(x) { TlsMessageHandshake::NextProtocol(x) },")],
+         "contract": """    ensures match r {
+            Ok((rem, TlsMessageHandshake::NextProtocol(c))) => nextproto_post(i@, Ok::<(&[u8], TlsNextProtocolContent), Err<Error<&[u8]>>>((rem, c))),
+            Ok(_) => false,
+            Err(e) => nextproto_post(i@, Err::<(&[u8], TlsNextProtocolContent), Err<Error<&[u8]>>>(e)) },"""},
         {"file": F_HS, "kind": "fn", "name": "parse_tls_handshake_msg_newsessionticket", "contract": "    ensures ticket_post(i@, len, r),",
          "splices": hint([{"after": r"let \(i, ticket_lifetime_hint\) = be_u32\(i\)\?;", "text": "    let ghost i1 = i@;\n    proof { assert(i1 =~= i0.subrange(4, i0.len() as int)); assert(ticket_lifetime_hint as int == be32s(i0, 0)); }"},
                           {"after": r"let \(i, ticket\) = take\(len - 4\)\(i\)\?;", "text": "    proof { assert(ticket@ =~= i0.subrange(4, len as int)); assert(i@ =~= i0.subrange(len as int, i0.len() as int)); }"}])},
